@@ -26,6 +26,14 @@ int main()
   printf("\nupper");
   for(int b = 0; b < 256; ++b)
     printf(" %u", (unsigned)(unsigned char)String::toUpperCase((char)(unsigned char)b));
+  printf("\nhex");
+  for(int b = 0; b < 256; ++b)
+  {
+    byte x = (byte)b;
+    String h = String::fromHex(&x, 1);
+    const char* t = h;
+    printf(" %u %u", h.length() == 2 ? (unsigned)(unsigned char)t[0] : 999u, h.length() == 2 ? (unsigned)(unsigned char)t[1] : 999u);
+  }
   printf("\n");
   return 0;
 }
